@@ -593,7 +593,11 @@ def r106(facts, res):
             if src != t['dest']['l']:
                 continue
             absent = [x for v, x in tt['targets'] if v == 0]
-            if absent:
+            # only a lookup that guards an INSERTION decides newness (a lookup may also just classify a name)
+            inserts_there = [ib for ib, it in b.calls() if callee_of(it) and callee_of(it)['name'] in ('insert', 'insert_full')
+                             and (callee_of(it).get('self_ty') or '').startswith('indexmap::set::IndexSet<alloc::string::String') and it['args']
+                             and 'tokens' in field_names(it['args'][0]) and absent and b.dominates(absent[0], ib)]
+            if absent and inserts_there:
                 new_regions.append((bb, absent[0]))
         # an insertion whose own result is not looked at is fine inside such an "absent" region
         untested = [ib for ib in untested if not any(b.dominates(ts, ib) for _lb, ts in new_regions)]
